@@ -95,6 +95,10 @@ def val(v, ctx, naive=False):
 def take(v, ctx, naive=False, form="list"):
     if v is None:
         return None
+    if form == "scalar":
+        if len(v) == 1:      # one period given by plain values (accepted by the constructors)
+            return {"start": ctx.stamp(v[0][0], naive), "end": ctx.stamp(v[0][1], naive), "values": float(v[0][2])}
+        form = "list"
     return {"start": _container([ctx.stamp(r[0], naive) for r in v], form, True),
             "end": _container([ctx.stamp(r[1], naive) for r in v], form, True),
             "values": _container([r[2] for r in v], "array" if (form == "dtindex" or form.startswith("array")) else "list")}
